@@ -98,6 +98,20 @@ CHECKS["C07"] = {
     "technique": "bounded symbolic execution (CrossHair + z3) over symbolic call-tree scripts vs an independent record oracle",
 }
 
+CHECKS["C05"] = {
+    "category": "model_checking",
+    "text": "(1) Every history of <= 5 (thorough 7) operations over {toggle two global probes in any order, enter / leave / leave-by-"
+            "exception a with-probe, call fa, call fb} with overlapping selectors is executed on the real code (the op list is symbolic, "
+            "lazily decoded, sharded on its first two operations): after each step active probes got exactly that step's events, "
+            "inactive ones none, and at quiescence original code objects, no handlers in the context, zero counters. (2) Inductive "
+            "step on the real SyncedStackedTransforms from an arbitrary consistent counter state (unbounded symbolic multiplicities) "
+            "for push/pop of any capture subset: invariant preserved and exactly the right code variant installed.",
+    "design_ref": "DESIGN.md section 4, C05",
+    "note": "Universe: 3 probes, 2 functions. The inductive step assumes its stated representation invariant (counts are sums of "
+            "multiplicities; installed code is the variant of the active union), established by _apply on the pre-state.",
+    "technique": "bounded symbolic execution (CrossHair + z3) of operation histories + one inductive step over symbolic counter states",
+}
+
 NOT_YET = {}
 
 
